@@ -42,7 +42,7 @@ pub struct CertAuth { pub resources: HashMap<ResourceClassName, ResourceClass>, 
     U.add(SPEC)
     km = 'obeys_key_model::<ResourceClassName>()'
     U.impl('impl CertAuth', [
-        U.fn(CA, 'CertAuth', 'revoke_requests', attrs=['#[verifier::loop_isolation(false)]'], requires=[('km', km)],
+        U.fn(CA, 'CertAuth', 'revoke_requests', hash_loops=(0,), attrs=['#[verifier::loop_isolation(false)]'], requires=[('km', km)],
              ensures=[
                  # (whether classes with nothing to revoke get an empty entry is not part of the statement: the caller sends nothing for them)
                  ('only_for_the_parent_the_class_is_held_under', 'forall |n: ResourceClassName| #[trigger] r@.contains_key(n) ==> self.resources@.contains_key(n) && r@[n]@ == entry_for(self.resources@[n], *parent)'),
